@@ -211,6 +211,14 @@ def break_fraction_search(ctx, shim, r, nfonts, per_font, pc, pt):
                        classify=F.fraction_known_class)
 
 
+def break_di_search(ctx, shim, r, nfonts, per_font, pc, pt):
+    metamorphic_search(ctx, shim, r, per_font, pc, pt, False, "break-safety-di", F.verify_break, [0, 0, pc],
+                       "breaking at unflagged cluster starts changes the result",
+                       F.DI_RULE + "then as break-safety-ot",
+                       groups=F.di_groups(r, nfonts), make=lambda r, g, fl, k: F.make_di_shaping(r, g, fl),
+                       classify=F.di_known_class)
+
+
 def gsub_flag_groups(ctx, shim, r, nfonts, per_font):
     """request groups of the `gsub` command (the GSUB interpreter of the crate through its hook vs the Lean model Gsub.lean,
     which contains every unsafe_to_break / unsafe_to_concat call site of the interpreter and delete_glyph / merge_clusters of
@@ -319,6 +327,7 @@ def run(ctx):
     carry_search(ctx, shim, ctx.rng("carry-exact"), ctx.budget(10000, 200000), pc, pt)
     break_synth_search(ctx, shim, ctx.rng("break-synth"), ctx.budget(200, 4000), 12, pc, pt)
     break_fraction_search(ctx, shim, ctx.rng("break-fraction"), ctx.budget(20, 300), ctx.budget(20, 60), pc, pt)
+    break_di_search(ctx, shim, ctx.rng("break-di"), ctx.budget(150, 3000), 16, pc, pt)
     break_search(ctx, shim, ctx.rng("break-ot"), ctx.budget(60, 1200), pc, pt, False, "break-safety-ot")
     break_search(ctx, shim, ctx.rng("break-aat"), ctx.budget(150, 4000), pc, pt, True, "break-safety-aat")
 
